@@ -367,6 +367,7 @@ def abstract(obs: dict, sc: dict | None = None, checker_awaits_core: bool = Fals
     log = obs["log"]
     stopping_begun = False
     checker_was_watcher = False
+    hung_wait_cancelled = False
     orch_err = False               # a (non-404) failed ensemble task has cancelled the running orchestrator
     orch_stopping = False
     wd_requests: dict[int, int] = {}
@@ -555,8 +556,12 @@ def abstract(obs: dict, sc: dict | None = None, checker_awaits_core: bool = Fals
                 put("rootEnd", "coreWatcher", "cancelled")
         elif kind == "rtHungWaitBegin":
             put("rtHungWait")
+        elif kind == "rtHungWaitCancelled":
+            hung_wait_cancelled = True
+            put("rtCancel")             # operator() cancelled while run_tasks waits for the hung tasks
         elif kind == "rtStopHungBegin":
-            put("rtCStopHung" if a[1] else "rtStopHung")
+            if not (a[1] and hung_wait_cancelled):      # (`rtCancel` from `hungWait` goes to `cStoppingHung` at once)
+                put("rtCStopHung" if a[1] else "rtStopHung")
         elif kind == "opEnd":
             exited = True
             put("rtExit", {"done": "returned", "failed": "raised", "cancelled": "cancelled"}[a[0]])
